@@ -6,7 +6,11 @@ Shape E: deviation-bounded enumeration of environment answers.  A *scenario* is 
 pre-existing output files, SOURCE_DATE_EPOCH set).  Every run of the scenario happens in the
 same directory with the same argv, so only the environment's answers differ:
 
-  alloc    heap address order: harness/mallocorder.so hands out ascending or descending
+  alloc    heap CONTENT: every malloc'ed block pre-filled with 0x55 / 0xAA / 0xFF / an address
+           pattern (today's fresh pages are zero), and a recycling mode that hands freed blocks
+           back uncleared (stale bytes of a dead object show through); cross-checked under the
+           real glibc with MALLOC_PERTURB_=85/170 and tcache_count=0
+           heap address order: harness/mallocorder.so hands out ascending or descending
            addresses, or -- for blocks of sizeof(FunctionRemap), measured from the tree under
            test -- every permutation of every window of m consecutive such blocks (m=3, all
            window phases; thorough m=4)
@@ -449,12 +453,30 @@ def h_homonyms():
 
 
 
+def h_statics():
+    """static properties, published static const data members, static data, static methods behind
+    __make_property -- entities none of whose functions takes 'this'"""
+    s = unrelated(2)
+    for i in range(4):
+        s += "class S%d {\n__published:\n  S%d();\n" % (i, i)
+        s += "  static int get_count();\n  static void set_count(int c);\n  __make_property(count, get_count, set_count);\n"
+        s += "  static const char *get_name();\n  __make_property(name, get_name);\n"
+        s += "  static P0 *get_default();\n  static void set_default(P0 *p);\n  static void set_default(P1 *p);\n"
+        s += "  __make_property(default_p, get_default, set_default);\n"
+        s += "  static const int max_items = %d;\n  static const double ratio;\n  static int shared;\n  static P1 *registry;\n" % (10 + i)
+        s += "  int get_inst() const;\n  void set_inst(int v);\n  __make_property(inst, get_inst, set_inst);\n"
+        s += "  static int get_num_slots();\n  static int get_slot(int i);\n  __make_seq(get_slots, get_num_slots, get_slot);\n"
+        s += "  static int helper(int a);\n  static int helper(P0 *a);\n  int plain;\n  enum { E_%d = %d };\n};\n" % (i, i)
+    s += "__begin_publish\nextern const int global_limit;\nextern int global_counter;\n__end_publish\n"
+    return {"h.h": s}
+
+
 HEADERS = [
     ("ovl_ptr", h_ovl_ptr), ("ovl_mixed", h_ovl_mixed), ("coerce", h_coerce),
     ("manifests", h_manifests), ("includes", h_includes), ("templates", h_templates),
     ("properties", h_properties), ("manyfn", lambda: h_many_functions(1500)),
     ("inherit", h_inherit), ("operators", h_operators), ("mix", h_mix),
-    ("foreign", h_foreign), ("homonyms", h_homonyms),
+    ("foreign", h_foreign), ("homonyms", h_homonyms), ("statics", h_statics),
     ("tiny", lambda: {"h.h": "class T {\n__published:\n  T();\n  int x;\n};\n"}),
 ]
 
@@ -462,7 +484,7 @@ BACKENDS = {"c": ["-c", "-fnames"], "python": ["-python", "-fnames"], "pynative"
 
 
 # ----------------------------------------------------------------------------- deviations
-DIM_ORDER = ["alloc", "aslr", "clock", "env", "locale", "tz", "stale", "rerun", "sde"]
+DIM_ORDER = ["alloc", "glibc", "aslr", "clock", "env", "locale", "tz", "stale", "rerun", "sde"]
 
 
 def dev_key(dev):
@@ -479,6 +501,14 @@ def single_deviations(thorough):
         for phase in range(m):
             for p in perms(m):
                 out.append({"alloc": "perm%d.%d.%s" % (m, phase, "".join(map(str, p)))})
+    # what freshly allocated memory CONTAINS (fill patterns; recycled, uncleared blocks)
+    modes = ["asc", "desc"] if thorough else ["asc"]
+    for m in modes:
+        for extra in ("fill55", "fillaa", "fillff", "filladdr", "recycle"):
+            out.append({"alloc": "%s:%s" % (m, extra)})
+        out.append({"alloc": "%s:recycle:filladdr" % m})
+    # independent cross-check with the real glibc allocator
+    out += [{"glibc": "perturb85"}, {"glibc": "perturb170"}, {"glibc": "tcache0"}]
     out += [{"aslr": "off"}, {"clock": T2001}, {"clock": T2038}, {"env": "64k"},
             {"locale": "LC_ALL:de_DE.UTF-8"}, {"locale": "LC_ALL:C.UTF-8"},
             {"locale": "LC_NUMERIC:de_DE.UTF-8"}, {"tz": "Asia/Tokyo"}, {"stale": "present"}]
@@ -487,7 +517,7 @@ def single_deviations(thorough):
 
 def pair_deviations():
     reps = {
-        "alloc": ["asc", "desc"] + ["perm3.%d.%s" % (ph, "".join(map(str, p))) for ph in range(3) for p in perms(3)],
+        "alloc": ["asc", "desc", "asc:fill55", "desc:fillaa", "asc:filladdr", "desc:recycle"] + ["perm3.%d.%s" % (ph, "".join(map(str, p))) for ph in range(3) for p in perms(3)],
         "aslr": ["off"], "clock": [T2001, T2038], "env": ["64k"],
         "locale": ["LC_ALL:de_DE.UTF-8", "LC_NUMERIC:de_DE.UTF-8"], "tz": ["Asia/Tokyo"],
         "stale": ["present"],
@@ -568,12 +598,24 @@ def apply_dev(dev, seams, b, scen_dir):
         a = dev["alloc"]
         preload.append(seams.mo)
         env["MO_LOG"] = os.path.join(scen_dir, "mo.log")
-        if a in ("asc", "desc"):
-            env["MO_MODE"] = a
+        if a.split(":")[0] in ("asc", "desc"):
+            toks = a.split(":")
+            env["MO_MODE"] = toks[0]
+            for t in toks[1:]:
+                if t == "recycle":
+                    env["MO_RECYCLE"] = "1"
+                elif t.startswith("fill"):
+                    env["MO_FILL"] = t[4:]
         else:
             m, phase, p = a[4:].split(".")
             env.update({"MO_MODE": "asc", "MO_SIZE": str(seams.remap_size), "MO_M": m,
                         "MO_SKIP": phase, "MO_PERM": ",".join(p)})
+    if "glibc" in dev:
+        g = dev["glibc"]
+        if g.startswith("perturb"):
+            env["MALLOC_PERTURB_"] = g[7:]
+        else:
+            env["GLIBC_TUNABLES"] = "glibc.malloc.tcache_count=0"
     if "clock" in dev:
         preload.append(seams.fc)
         env["FC_TIME"] = dev["clock"]
@@ -655,6 +697,10 @@ class Scenario:
         if os.path.exists(mol):
             m = re.search(r"allocs (\d+) sized (\d+)", open(mol).read())
             sized = int(m.group(2)) if m else None
+        if "alloc" in dev and "recycle" in dev["alloc"] and r_ok and self.tool == "interrogate":
+            m = re.search(r"recycled (\d+)", open(mol).read()) if os.path.exists(mol) else None
+            if not m or int(m.group(1)) == 0:
+                raise HarnessError("recycling allocator never reused a block in %s" % self.name)
         if "alloc" in dev and r_ok and sized is None:
             raise HarnessError("allocator seam was not active in %s under %s" % (self.name, dev_key(dev)))
         return {"rc": r.rc, "timeout": r.timeout, "stderr": r.err.decode("latin-1")[-500:],
@@ -844,6 +890,12 @@ def main():
     completed = "reference runs"
     # vacuity guard for the import orderings: the foreign scenario must really produce an imports
     # table in which several entries share their simple name
+    ss = byname.get("i-statics-pynative")
+    if ss is not None:
+        nstat = ss.ref["outs"]["oc"].count(b"Dtool_NewStaticProperty")
+        ck.extra["static_properties_in_statics_scenario"] = nstat
+        if nstat < 8:
+            raise HarnessError("statics scenario produces only %d static properties" % nstat)
     fs = byname.get("i-foreign-pynative")
     if fs is not None:
         names = re.findall(rb'^  \{"([^"]+)", nullptr\},$', fs.ref["outs"]["oc"], re.M)
